@@ -70,6 +70,8 @@ type Ctx struct {
 	replay      *replayInfo
 	keyLeaf     map[string]Leaf
 	witnesses   map[string]T
+	epochTop    map[int]T
+	nepochs     int
 }
 
 type closure struct {
@@ -116,6 +118,8 @@ type Frame struct {
 	freeVars map[*ssa.FreeVar]int
 	cl      *closure
 	curCall *ssa.CallCommon
+	curBlock  *ssa.BasicBlock
+	innerLoop map[*ssa.BasicBlock]*ssa.BasicBlock // block -> innermost loop header
 }
 
 type edgeInB struct {
@@ -127,7 +131,7 @@ type edgeInB struct {
 func newCtx(P *Program, prop string) *Ctx {
 	c := &Ctx{P: P, sc: newScript(), heapSort: map[string]string{}, pseudoKinds: map[string]int{}, factsDone: map[string]bool{},
 		iterSort: map[iterKey]string{}, lits: map[string]string{}, prop: prop, trusted: map[string]bool{}, closures: map[T]*closure{},
-		callOrd: map[string]int{}, oblNames: map[string]int{}, loopInfos: map[string]*loopInfo{}, keyLeaf: map[string]Leaf{}, witnesses: map[string]T{}}
+		callOrd: map[string]int{}, oblNames: map[string]int{}, loopInfos: map[string]*loopInfo{}, keyLeaf: map[string]Leaf{}, witnesses: map[string]T{}, epochTop: map[int]T{}}
 	c.sc.raw(prelude)
 	return c
 }
@@ -386,86 +390,190 @@ func (c *Ctx) execBodyEdges(fr *Frame, st *State, reach T) (*State, T, Val, []re
 	}
 	ins := map[*ssa.BasicBlock][]edgeInB{}
 	fr.loopOrd = map[*ssa.BasicBlock]int{}
+	fr.innerLoop = map[*ssa.BasicBlock]*ssa.BasicBlock{}
+	bodySize := map[*ssa.BasicBlock]int{}
 	for i, h := range loopHeaders(fn) {
 		fr.loopOrd[h] = i + 1
+		body := loopBody(h)
+		for b := range body {
+			if cur, ok := fr.innerLoop[b]; !ok || len(body) < bodySize[cur] {
+				fr.innerLoop[b] = h
+			}
+		}
+		bodySize[h] = len(body)
 	}
 	var rets []retEdge
-	type loopCtx struct {
-		head   *State
-		hreach T
+	type backRec struct {
+		st   *State
+		cond T
 	}
-	loops := map[*ssa.BasicBlock]*loopCtx{}
-	for _, b := range topoOrder(fn) {
-		type start struct {
-			st *State
-			r  T
-			in []edgeInB
+	backs := map[*ssa.BasicBlock][]backRec{}
+	// region reachable from b along forward edges
+	regionOf := func(b *ssa.BasicBlock) map[*ssa.BasicBlock]bool {
+		reg := map[*ssa.BasicBlock]bool{b: true}
+		stack := []*ssa.BasicBlock{b}
+		for len(stack) > 0 {
+			x := stack[len(stack)-1]
+			stack = stack[:len(stack)-1]
+			for _, s := range x.Succs {
+				if !backEdge(x, s) && !reg[s] {
+					reg[s] = true
+					stack = append(stack, s)
+				}
+			}
 		}
-		var starts []start
+		return reg
+	}
+	var execBlock func(b *ssa.BasicBlock, cur *State, r T, in []edgeInB, split bool)
+	emit := func(from, to *ssa.BasicBlock, cond T, st *State, split bool) {
+		if cond == "false" {
+			return
+		}
+		if backEdge(from, to) {
+			backs[to] = append(backs[to], backRec{st.clone(), cond})
+			return
+		}
+		if split {
+			execBlock(to, st.clone(), cond, []edgeInB{{from, cond, st}}, true)
+			return
+		}
+		ins[to] = append(ins[to], edgeInB{from, cond, st})
+	}
+	execBlock = func(b *ssa.BasicBlock, cur *State, r T, in []edgeInB, split bool) {
+		fr.curIns = in
+		fr.curBlock = b
+		if ord, isLoop := fr.loopOrd[b]; isLoop {
+			cur = c.enterLoop(fr, b, ord, cur, r)
+		}
+		for _, instr := range b.Instrs {
+			switch t := instr.(type) {
+			case *ssa.If:
+				cond := fr.val(c, t.Cond).one()
+				cn := c.sc.def(fmt.Sprintf("br.f%d.b%d", fr.id, b.Index), sBool, cond)
+				// the two successors see independent copies in split mode
+				emit(b, b.Succs[0], and(r, cn), cur, split)
+				fr.curBlock = b
+				emit(b, b.Succs[1], and(r, not(cn)), cur, split)
+			case *ssa.Jump:
+				emit(b, b.Succs[0], r, cur, split)
+			case *ssa.Return:
+				var res Val
+				res.Typ = fn.Signature.Results()
+				for _, x := range t.Results {
+					res.L = append(res.L, fr.val(c, x).L...)
+				}
+				rets = append(rets, retEdge{r, cur, res})
+			case *ssa.Panic:
+				c.safe("panic:"+c.describeValue(t.X), r, "false", t.Pos())
+				return
+			default:
+				c.step(fr, cur, r, instr)
+			}
+		}
+	}
+	splitDone := map[*ssa.BasicBlock]bool{}
+	for _, b := range topoOrder(fn) {
+		if splitDone[b] {
+			continue
+		}
 		if b == fn.Blocks[0] {
-			starts = []start{{st, reach, nil}}
-		} else {
-			in := ins[b]
-			if len(in) == 0 {
-				continue
-			}
-			_, isLoop := fr.loopOrd[b]
-			_, isRet := b.Instrs[len(b.Instrs)-1].(*ssa.Return)
-			hasPhi := false
-			if _, ok := b.Instrs[0].(*ssa.Phi); ok {
-				hasPhi = true
-			}
-			if isRet && !isLoop && !hasPhi && len(in) > 1 && len(in) <= 16 {
+			execBlock(b, st, reach, nil, false)
+			continue
+		}
+		in := ins[b]
+		if len(in) == 0 {
+			continue
+		}
+		_, isLoop := fr.loopOrd[b]
+		_, isRet := b.Instrs[len(b.Instrs)-1].(*ssa.Return)
+		_, hasPhi := b.Instrs[0].(*ssa.Phi)
+		if !isLoop && !hasPhi && len(in) > 1 {
+			if isRet && len(in) <= 16 {
 				// tail duplication: a returning block is executed once per
 				// incoming edge, so postconditions see unmerged states
 				for _, e := range in {
-					starts = append(starts, start{e.st.clone(), e.cond, []edgeInB{e}})
+					execBlock(b, e.st.clone(), e.cond, []edgeInB{e}, false)
 				}
-			} else {
-				var es []edgeIn
-				var cs []T
-				for _, e := range in {
-					es = append(es, edgeIn{e.cond, e.st})
-					cs = append(cs, e.cond)
+				continue
+			}
+			if len(in) > 3 {
+				// wide join (e.g. after a switch): explore the rest of the body
+				// path by path instead of merging many heaps into ite-terms
+				reg := regionOf(b)
+				ok := len(reg) <= 48
+				for x := range reg {
+					if _, l := fr.loopOrd[x]; l {
+						ok = false
+					}
+					if _, ph := x.Instrs[0].(*ssa.Phi); ph {
+						ok = false
+					}
+					// every predecessor of a region block (other than b) must be inside the region
+					if x != b {
+						for _, p := range x.Preds {
+							if !reg[p] {
+								ok = false
+							}
+						}
+					}
 				}
-				cur := c.merge(es)
-				r := c.sc.def(fmt.Sprintf("reach.f%d.b%d", fr.id, b.Index), sBool, or(cs...))
-				starts = []start{{cur, r, in}}
+				if ok {
+					for x := range reg {
+						splitDone[x] = true
+					}
+					for _, e := range in {
+						execBlock(b, e.st.clone(), e.cond, []edgeInB{e}, true)
+					}
+					continue
+				}
 			}
 		}
-		for _, s0 := range starts {
-			cur, r := s0.st, s0.r
-			fr.curIns = s0.in
-			if ord, isLoop := fr.loopOrd[b]; isLoop {
-				cur = c.enterLoop(fr, b, ord, cur, r)
-				loops[b] = &loopCtx{head: cur.clone(), hreach: r}
+		var es []edgeIn
+		var cs []T
+		for _, e := range in {
+			es = append(es, edgeIn{e.cond, e.st})
+			cs = append(cs, e.cond)
+		}
+		cur := c.merge(es)
+		r := c.sc.def(fmt.Sprintf("reach.f%d.b%d", fr.id, b.Index), sBool, or(cs...))
+		execBlock(b, cur, r, in, false)
+	}
+	// loop invariants at the back edges: one named obligation per clause, one
+	// query per back edge
+	for _, h := range loopHeaders(fn) {
+		bs := backs[h]
+		if len(bs) == 0 {
+			continue
+		}
+		ord := fr.loopOrd[h]
+		invs, _ := c.loopClauses(fr, ord)
+		fk := funcKey(fn)
+		var reaches []T
+		for _, be := range bs {
+			reaches = append(reaches, be.cond)
+		}
+		if ri := rangeIndexOf(h); ri != nil {
+			var goals []T
+			for _, be := range bs {
+				if v, ok := be.st.locals[localKey{fr.id, ri}]; ok {
+					goals = append(goals, and(ge(v.one(), num(-1)), lt(v.one(), maxLenTerm)))
+				} else {
+					goals = append(goals, "true")
+				}
 			}
-			dead := false
-			for _, instr := range b.Instrs {
-				switch t := instr.(type) {
-				case *ssa.If:
-					cond := fr.val(c, t.Cond).one()
-					cn := c.sc.def(fmt.Sprintf("br.f%d.b%d", fr.id, b.Index), sBool, cond)
-					c.pushEdge(fr, ins, b, b.Succs[0], and(r, cn), cur, loops)
-					c.pushEdge(fr, ins, b, b.Succs[1], and(r, not(cn)), cur, loops)
-				case *ssa.Jump:
-					c.pushEdge(fr, ins, b, b.Succs[0], r, cur, loops)
-				case *ssa.Return:
-					var res Val
-					res.Typ = fn.Signature.Results()
-					for _, x := range t.Results {
-						res.L = append(res.L, fr.val(c, x).L...)
-					}
-					rets = append(rets, retEdge{r, cur, res})
-				case *ssa.Panic:
-					c.safe("panic:"+c.describeValue(t.X), r, "false", t.Pos())
-					dead = true
-				default:
-					c.step(fr, cur, r, instr)
-				}
-				if dead {
-					break
-				}
+			c.obligeParts("invariant", fmt.Sprintf("%s:loop%d:preserved:rangeindex", fk, ord), nil, reaches, goals, h.Instrs[0].Pos(), "-1 <= rangeindex < 2^31")
+		}
+		for _, cl := range invs {
+			var goals []T
+			for _, be := range bs {
+				env := c.loopEnv(fr, h, be.st)
+				goals = append(goals, c.evalClause(env, cl))
+			}
+			c.obligeParts("invariant", fmt.Sprintf("%s:loop%d:preserved:%s", fk, ord, cl.name()), cl.Tags, reaches, goals, h.Instrs[0].Pos(), cl.Text)
+		}
+		if li := c.loopInfos[loopKey(c, fr, h)]; li != nil {
+			for _, be := range bs {
+				c.frameObligations(fmt.Sprintf("%s:loop%d:frame", fk, ord), li.head, be.st, li.modlocs, be.cond, li.pre.top, h.Instrs[0].Pos())
 			}
 		}
 	}
@@ -487,17 +595,6 @@ func (c *Ctx) execBodyEdges(fr *Frame, st *State, reach T) (*State, T, Val, []re
 		res = c.mergeVals(fmt.Sprintf("ret.f%d", fr.id), es, vals)
 	}
 	return out, c.sc.def(fmt.Sprintf("exit.f%d", fr.id), sBool, or(cs...)), res, rets
-}
-
-func (c *Ctx) pushEdge(fr *Frame, ins map[*ssa.BasicBlock][]edgeInB, from, to *ssa.BasicBlock, cond T, st *State, loops interface{}) {
-	if cond == "false" {
-		return
-	}
-	if backEdge(from, to) {
-		c.closeLoop(fr, to, fr.loopOrd[to], st, cond)
-		return
-	}
-	ins[to] = append(ins[to], edgeInB{from, cond, st})
 }
 
 // ---- loops ----
@@ -568,6 +665,18 @@ func loopKey(c *Ctx, fr *Frame, h *ssa.BasicBlock) string {
 	return fmt.Sprintf("%d/%d", fr.id, h.Index)
 }
 
+// rangeIndexOf: the hidden index variable of a `for range` loop over a slice.
+func rangeIndexOf(h *ssa.BasicBlock) *ssa.Alloc {
+	for _, ins := range h.Instrs {
+		if s, ok := ins.(*ssa.Store); ok {
+			if a, ok := s.Addr.(*ssa.Alloc); ok && a.Comment == "rangeindex" {
+				return a
+			}
+		}
+	}
+	return nil
+}
+
 func (c *Ctx) enterLoop(fr *Frame, h *ssa.BasicBlock, ord int, st *State, reach T) *State {
 	invs, mods := c.loopClauses(fr, ord)
 	if len(invs) == 0 && fr.ct == nil {
@@ -584,7 +693,10 @@ func (c *Ctx) enterLoop(fr *Frame, h *ssa.BasicBlock, ord int, st *State, reach 
 	pre := st.clone()
 	cur := st.clone()
 	body := loopBody(h)
-	for b := range body {
+	for _, b := range fr.fn.Blocks {
+		if !body[b] {
+			continue
+		}
 		for _, ins := range b.Instrs {
 			switch t := ins.(type) {
 			case *ssa.Store:
@@ -616,11 +728,25 @@ func (c *Ctx) enterLoop(fr *Frame, h *ssa.BasicBlock, ord int, st *State, reach 
 	c.havoc(cur, locs, ntop)
 	cur.top = ntop
 	// type facts of havocked locals relative to the new frontier
-	for k, v := range cur.locals {
-		if k.frame == fr.id {
-			if o, ok := pre.locals[k]; ok && !sameLeaves(o, v) {
-				c.sc.assume(c.valFacts(v, ntop))
+	{
+		lk := map[localKey]bool{}
+		for k := range cur.locals {
+			lk[k] = true
+		}
+		for _, k := range sortedLocalKeys(lk) {
+			v := cur.locals[k]
+			if k.frame == fr.id {
+				if o, ok := pre.locals[k]; ok && !sameLeaves(o, v) {
+					c.sc.assume(c.valFacts(v, ntop))
+				}
 			}
+		}
+	}
+	// the hidden index of a range loop only counts upwards from -1 (by
+	// construction of the loop; asserted again at the back edge)
+	if ri := rangeIndexOf(h); ri != nil {
+		if v, ok := cur.locals[localKey{fr.id, ri}]; ok {
+			c.sc.assume(imp(reach, and(ge(v.one(), num(-1)), lt(v.one(), maxLenTerm))))
 		}
 	}
 	// 3. assume the invariant for an arbitrary iteration
@@ -645,20 +771,6 @@ func sameLeaves(a, b Val) bool {
 	return true
 }
 
-func (c *Ctx) closeLoop(fr *Frame, h *ssa.BasicBlock, ord int, st *State, cond T) {
-	invs, _ := c.loopClauses(fr, ord)
-	fk := funcKey(fr.fn)
-	env := c.loopEnv(fr, h, st)
-	for _, cl := range invs {
-		g := c.evalClause(env, cl)
-		c.oblige("invariant", fmt.Sprintf("%s:loop%d:preserved:%s", fk, ord, cl.name()), cl.Tags, cond, g, h.Instrs[0].Pos(), cl.Text)
-	}
-	li := c.loopInfos[loopKey(c, fr, h)]
-	if li != nil {
-		c.frameObligations(fmt.Sprintf("%s:loop%d:frame", fk, ord), li.head, st, li.modlocs, cond, li.pre.top, h.Instrs[0].Pos())
-	}
-}
-
 func (c *Ctx) evalClause(env *Env, cl *Clause) (g T) {
 	env.at = fmt.Sprintf("%s:%d", cl.File, cl.Line)
 	return env.evalBool(cl.Expr)
@@ -668,6 +780,17 @@ func (c *Ctx) evalClause(env *Env, cl *Clause) (g T) {
 
 func (c *Ctx) havoc(st *State, locs []ModLoc, ntop T) {
 	for _, m := range locs {
+		if m.Everything {
+			c.nepochs++
+			st.epoch = c.nepochs
+			c.epochTop[st.epoch] = ntop
+			st.heap = map[string]T{}
+			for k := range st.ghost {
+				st.ghost[k] = c.sc.fresh("ghost", sInt)
+			}
+			st.ghostEpoch = st.epoch
+			continue
+		}
 		if m.Glob {
 			if strings.HasPrefix(m.Key, "ghost:") {
 				st.ghost[m.Key[6:]] = c.sc.fresh("ghost", sInt)
@@ -675,6 +798,27 @@ func (c *Ctx) havoc(st *State, locs []ModLoc, ntop T) {
 			}
 			c.heapSort[m.Key] = m.Sort
 			st.heap[m.Key] = c.sc.fresh("hv."+smtSym(m.Key), m.Sort)
+			continue
+		}
+		if m.SetE != "" {
+			// every object referenced from the slice: new heap array that agrees
+			// with the old one outside the set
+			h := c.heapGet(st, m.Key, m.Sort)
+			nh := c.sc.fresh("hv."+smtSym(m.Key), m.Sort)
+			c.sc.assume(fmt.Sprintf("(forall ((r Int)) (! (=> (not %s) (= (select %s r) (select %s r))) :pattern ((select %s r))))", m.inSet("r"), nh, h, nh))
+			if l, known := c.keyLeaf[m.Key]; known || m.HasLeaf {
+				if !known {
+					l = m.Leaf
+				}
+				_, inner := innerSort(m.Sort)
+				ks, _ := innerSort(inner)
+				x := "(select (select " + nh + " r) i)"
+				if f := c.leafFact(l, x, ntop); f != "true" {
+					c.sc.assume(fmt.Sprintf("(forall ((r Int) (i %s)) (! %s :pattern (%s)))", ks, f, x))
+				}
+			}
+			c.heapSort[m.Key] = m.Sort
+			st.heap[m.Key] = nh
 			continue
 		}
 		h := c.heapGet(st, m.Key, m.Sort)
@@ -717,6 +861,11 @@ func (c *Ctx) declRoot() {
 // must agree with `from` outside the declared locations, for every object that
 // already existed (reference <= oldTop, or pseudo-reference rooted there).
 func (c *Ctx) frameObligations(name string, from, to *State, locs []ModLoc, reach T, oldTop T, pos token.Pos) {
+	for _, m := range locs {
+		if m.Everything {
+			return
+		}
+	}
 	var keys []string
 	for k, t := range to.heap {
 		ft, ok := from.heap[k]
@@ -757,6 +906,10 @@ func (c *Ctx) frameObligations(name string, from, to *State, locs []ModLoc, reac
 			if m.Key != k {
 				continue
 			}
+			if m.SetE != "" {
+				excl = append(excl, not(m.inSet(r)))
+				continue
+			}
 			if m.HasIdx && twoLevel {
 				excl = append(excl, not(and(eq(r, m.Ref), eq(j, m.Idx))))
 			} else {
@@ -774,7 +927,12 @@ func (c *Ctx) frameObligations(name string, from, to *State, locs []ModLoc, reac
 		c.oblige("frame", name+":"+k, nil, reach, imp(and(append(excl, existed)...), same), pos, "only declared locations of "+k+" change")
 	}
 	// ghost counters
-	for k, t := range to.ghost {
+	gk := map[string]bool{}
+	for k := range to.ghost {
+		gk[k] = true
+	}
+	for _, k := range sortedStrKeys(gk) {
+		t := to.ghost[k]
 		ft, ok := from.ghost[k]
 		if !ok {
 			ft = c.ghostInit(k)
@@ -797,6 +955,11 @@ func (c *Ctx) frameObligations(name string, from, to *State, locs []ModLoc, reac
 func (c *Ctx) ghostGet(st *State, k string) T {
 	if t, ok := st.ghost[k]; ok {
 		return t
+	}
+	if st.ghostEpoch > 0 {
+		n := fmt.Sprintf("Ge%d.%s", st.ghostEpoch, smtSym(k))
+		c.sc.declare(n, sInt)
+		return n
 	}
 	return c.ghostInit(k)
 }
@@ -1043,3 +1206,8 @@ func (c *Ctx) entryTopOrZero() T {
 	return ""
 }
 
+
+// inSet: r is one of the references stored in the slice (SetE, SetOff, SetLen).
+func (m ModLoc) inSet(r T) T {
+	return fmt.Sprintf("(exists ((q.si Int)) (and (<= 0 q.si) (< q.si %s) (= %s (select %s %s))))", m.SetLen, r, m.SetE, slIdx(m.SetOff, "q.si"))
+}
